@@ -132,6 +132,8 @@ def gen_history(tape, max_tests=5, runs=True, tags=True, times=True, extras=True
             for _ in range(tape.draw("program", 2, "after-outcome")):
                 if tags and tape.chance("program", 1, 2, "tags-after-outcome"):
                     h.append(["tags"] + list(_tagpair(tape)))
+                elif times and tape.chance("program", 1, 2, "time-after-outcome"):
+                    h.append(["time", mark()])
             h.append(["stopTest", tid, tk])
         if tags and tape.chance("program", 1, 4, "trailing-tags"):
             h.append(["tags"] + list(_tagpair(tape)))
@@ -187,11 +189,13 @@ def make_exc_info(marker):
 class Reporter:
     """Applies a history to a result object, one call at a time."""
 
-    def __init__(self, result, history):
+    def __init__(self, result, history, reuse_details_dict=False):
         self.result = result
         self.history = history
         self.tests = {}
         self.i = 0
+        # a reporter may refill one dict object for every outcome it reports
+        self.shared = {} if reuse_details_dict else None
 
     def test(self, tid, kind):
         t = self.tests.get(tid)
@@ -224,7 +228,12 @@ class Reporter:
             t = self.test(tid, tk)
             m = getattr(r, method)
             if mode == "details":
-                m(t, details=build_details(payload["details"]))
+                det = build_details(payload["details"])
+                if self.shared is not None:
+                    self.shared.clear()
+                    self.shared.update(det)
+                    det = self.shared
+                m(t, details=det)
             elif mode == "exc_info":
                 m(t, make_exc_info(payload["exc"]))
             elif mode == "reason":
@@ -309,7 +318,9 @@ def build_stack(spec, world, built, path=(), taggers=(), make_testtools=None):
         return obj
     if kind == "bytest":
         log = []
-        obj = TestByTestResult(lambda **kw: log.append(dict(kw, seq=world.tick())))
+        from .targets import snap_details
+        # (the details are read at the callback: a reporter may refill the same dict afterwards)
+        obj = TestByTestResult(lambda **kw: log.append(dict(kw, seq=world.tick(), snap=snap_details(kw.get("details")))))
         built.bytest.append({"name": f"bytest#{n}", "obj": obj, "log": log, "path": list(path), "taggers": list(taggers)})
         built.nodes.append(("bytest", obj, list(path)))
         return obj
